@@ -227,6 +227,11 @@ func (g *agen) response(where string, shared []string) O {
 				hs[h] = g.header()
 			}
 		}
+		if g.Pct(12) {
+			// '~' is a legal character of an HTTP header name (RFC 7230 token), and needs escaping in a JSON pointer
+			hs["X-Rate~Limit"] = g.header()
+			g.Label("header-name-with-tilde")
+		}
 		if len(hs) > 0 {
 			r["headers"] = hs
 			g.Label("headers:" + where)
